@@ -57,7 +57,7 @@ CHECKS = {
     text="MC_AlphaAlgebra checks exhaustively on a tiny domain that Div(Conv(Mul(src))) ignores colours under alpha 0, yields colour 0 where the resampled alpha is 0, "
          "equals plain resizing for an opaque source and leaves the alpha lane a plain convolution; MC_Resizer checks that the canonical term has Mul..Div exactly when alpha "
          "is on and the type has alpha. Conformance: metamorphic pairs (recoloured transparent pixels; opaque alpha-on vs alpha-off; alpha plane on vs off) for the 6 alpha types x "
-         "convolution algorithms x 7 filters x back-ends; the hook events of every recorded call (crop resolution, copy fast path, dispatch, super-sampling plan, every temporary image with buffer length before/after and alignment gap, window extents, pass order and offsets, premultiply/divide) are validated step by step against Resizer!Ok/Upd (TraceResize), and TLC compares the recorded images of each pair.",
+         "convolution algorithms x 7 filters x back-ends, incl. crops deep inside the source with strong down-scales (the kernel reaches premultiplied pixels far outside the box); the hook events of every recorded call (crop resolution, copy fast path, dispatch, super-sampling plan, every temporary image with buffer length before/after and alignment gap, window extents, pass order and offsets, premultiply/divide) are validated step by step against Resizer!Ok/Upd (TraceResize), and TLC compares the recorded images of each pair.",
     note="Float opaque pairs are compared within 4 ulp (the divide by a resampled alpha of ~1.0).", design="4/C07", technique=TECH),
  "C09": dict(
     text="Resizer.tla models the three scratch buffers (grow-only lengths, one-pixel alignment gap, moved out and put back) and MC_Resizer_hist explores all 3-call histories "
@@ -72,7 +72,7 @@ CHECKS = {
  "C11": dict(
     text="Geometry!NearestSet is the exact rational floor(left + (x+1/2) w/n) with both neighbours at an exact tie; MC_Geometry checks index-inside-source for all geometries up to 6 "
          "pixels on the quarter-pixel grid, GeomLemmas!NearestInside proves it for all sizes < 2^16 (Apalache), proofs/NearestProof for all naturals and every grid (TLAPS, machine-checked on every run). Conformance: identity-tagged sources of all 13 types, edge-flush and "
-         "sub-pixel crops, 1-pixel sources, ratios to 1:200, buffers flush against guard pages; TLC checks every destination pixel is a bit-exact copy of a candidate source pixel and that the "
+         "sub-pixel crops, whole-number scale factors x every quarter-pixel origin, crop boxes narrower than any grid (one ulp wide and flush against an edge, 1e-9, denormal: IsNearestCell), 1-pixel sources, ratios to 1:200, buffers flush against guard pages; TLC checks every destination pixel is a bit-exact copy of a candidate source pixel and that the "
          "hook trace is Call, Dispatch, Nearest, Ret (no alpha phase).",
     note="Crop coordinates are dyadic (quarter pixels) so that the code's f64 arithmetic is exact away from ties.", design="4/C11", technique=TECH + "; Apalache lemma"),
  "C12": dict(
@@ -83,7 +83,7 @@ CHECKS = {
     note="", design="4/C12", technique=TECH),
  "C13": dict(
     text="Views.tla: a view exposes exactly its rectangle of the parent (MC_Views). Conformance: each logical call (resize with every algorithm, alpha ops, mapping, conversion) is executed through "
-         "17 container/placement combinations (owned, slice, reference, typed, typed reference, cropped and nested-cropped views with different paddings, spare capacity, guard pages before/after; "
+         "17 container/placement combinations (in-place alpha operations through every mutable container; band-splitting sizes with 4 threads; Nearest at tie-prone non-binary geometries) (owned, slice, reference, typed, typed reference, cropped and nested-cropped views with different paddings, spare capacity, guard pages before/after; "
          "dynamic and typed entry points); the hook events of every recorded call (crop resolution, copy fast path, dispatch, super-sampling plan, every temporary image with buffer length before/after and alignment gap, window extents, pass order and offsets, premultiply/divide) are validated step by step against Resizer!Ok/Upd (TraceResize), and TLC requires a single result per logical call, unchanged surroundings and source. "
          "The row-iterator contract (Views!RowsFrom / RowGroups / RowsStep; MC_Rows) is validated directly: iter_rows, iter_rows_mut, iter_2_rows, iter_4_rows, iter_rows_with_step of every container kind for all start rows incl. beyond the height "
          "(TraceRows): number of rows, row length and the tags of every exposed pixel.",
@@ -106,6 +106,7 @@ CHECKS = {
          "7 filters, adaptive/fixed kernel size) have windows inside the kernel's support and the source (Geometry!WindowOK), sum to 1 within 2^-45, and every weight equals the documented kernel at the tap's exact "
          "rational argument, normalised, within 2^-40 -- Box/Bilinear/CatmullRom/Mitchell as exact rational polynomials (Kernels.tla), Hamming/Gaussian/Lanczos3 against a certified interval table (KernelTable, mpmath) where all "
          "arguments fall on its 1/64 grid; only zero-weight taps may be trimmed. (2) precision and integer coefficients equal FixedPoint!Precision16/32 and round-half-away of those weights. (3) TraceConv: every pass of "
+         "(also long windows of 16-60 taps on every back-end and alpha-aware down-scales of crops deep inside the source) "
          "recorded resizes (13 types x back-ends x Convolution/Interpolation/SuperSampling m=1..3 x random/extreme/checkerboard/impulse contents; intermediate images dumped by hooks) is recomputed from the recorded pixels and "
          "those tables: integer samples must be the nearest integer of the fixed-point sum (half a unit, either neighbour at a tie, clamped), I32 within 1/2, floats within 2^-22 relative (+2^-45 of the absolute mass); "
          "SuperSampling's intermediate is the nearest-neighbour image; premultiply/divide per Alpha.tla. Design level: MC_FixedPoint, MC_Geometry, GeomLemmas!WindowInside.",
@@ -113,32 +114,32 @@ CHECKS = {
          "the fixed-point architecture (dumped coefficients).", design="4/C01", technique=TECH + " with exact Wide/dyadic arithmetic"),
  "C02": dict(
     text="MC_Backends: every chunking scheme found in the SSE4.1/AVX2 kernels (16/8/4/2/1, 5/1, 32/16/8/4/1, row blocks of 4 and 2) consumes every index exactly once for every length 0..70 and terminates. Conformance: "
-         "~3.5k (quick) cases covering every residue of width, kernel length and row count, all filters, custom kernels forcing other fixed-point precisions, alpha on/off, the four alpha operations, buffers flush against guard pages, "
+         "~3.5k (quick) cases covering every residue of width, kernel length and row count, all filters, custom kernels forcing other fixed-point precisions, alpha on/off, the four alpha operations incl. adversarial (colour, alpha) pairs (alpha = 1 under full-range colours), buffers flush against guard pages, "
          "each executed on None / Sse4_1 / Avx2; TLC validates the pipeline of each run and the group memo with the statement's tolerance classes (integers exact via digests, 16-bit alpha divide and alpha-aware U16x2/U16x4 resize +-1, "
-         "floats within 4 ulp unless both results are below the cancellation threshold).",
+         "floats within 4 units in the last place of the magnitude of the summed terms (Resizer-independent class memo_f32 with mexp)).",
     note="NEON / WASM kernels cannot run on this host.", design="4/C02", technique=TECH),
  "C03": dict(
     text="Index arithmetic the unsafe code relies on is specified and checked: windows and nearest indices inside the source (MC_Geometry; GeomLemmas for all sizes < 2^16, refuted without the crop-inside precondition), temporary images "
          "inside their buffers (Resizer!TempOK on every temp event), clip-table range (MC_FixedPoint, FixedLemmas incl. the normalised-window lemma), views inside parents (MC_Views), every call ends in Ok/Err (MC_Resizer). Conformance: "
          "(A) windows of the real coefficient tables for a lattice + seeded geometries up to 2000 px; (B) ~3k boundary executions per build on the optimised and the debug-assertion build with buffers flush against PROT_NONE pages: "
          "sizes 0/1, crops flush / sub-pixel / one ulp inside the edge / denormal / negative / NaN / infinite / f64::MAX, oversized and exact buffers, strided and typed views, all algorithms, custom kernels (sum|w| < 4: no panic; beyond: no crash), "
-         "long-lived resizers; panics, aborts and signals are trace data that TLC rejects; (C) the range of indices really used for the u8 clip table (hook) under adversarial contents.",
+         "long-lived resizers; panics, aborts and signals are trace data that TLC rejects; (C) the range of indices really used for the u8 clip table (hook) under adversarial contents; (D) whatever a byte-buffer constructor accepts (every misalignment 0..7, all pixel types) must be usable: decision per Geometry!BufferDecisionOK, then a resize without panic. TLAPS: proofs/NearestProof.",
     note="Memory safety is observed (guard pages, debug assertions), not proved; a read inside mapped memory of a neighbouring row of a strided parent is only seen for the last row. NEON/WASM not executable.",
     design="4/C03", technique=TECH + "; Apalache lemmas; guard pages"),
  "C08": dict(
     text="Threading.tla specifies the band count over unbounded integers, SplitBands and the take/finish/join protocol over the implementation's events; MC_Threading explores all interleavings of band workers at small scope (no cell written twice, "
          "complete at the join, source line = destination line + offset); BandLemmas: band tiling for all 1 <= parts <= size < 2^32, band count in 0..extent for all u32 shapes, and the wrapping-u32 area refuted (65,536 rows). Conformance: "
-         "each case runs in rayon pools of 1, 2, 3, 4, 7, 16, 32 threads (shapes 1xN / Nx1 up to 70,000, squares around the 2^14 area threshold, pools larger than the extent, all passes, one- and two-image alpha operations, crop boxes that give both passes non-zero source offsets); TLC validates every "
+         "each case runs in rayon pools of 1, 2, 3, 4, 7, 16, 32 threads (shapes 1xN / Nx1 up to 70,000, squares around the 2^14 area threshold, pools larger than the extent, all passes, one- and two-image alpha operations, crop boxes that give both passes non-zero source offsets, alpha types whose horizontal pass reads the premultiplied buffer with a row offset); TLC validates every "
          "logged split plan and band begin/end event against Threading (each band exactly once, join before the next step), the pipeline, and the output bytes against the 1-thread run.",
     note="OS schedules are sampled; exhaustive interleavings only in the model. Outputs compared via two 31-bit digests.", design="4/C08", technique=TECH + "; Apalache lemmas"),
  "C10": dict(
     text="FixedPoint!UnityBand is the exact condition on the integer coefficient sum S and precision p under which every constant 0..max is reproduced (MC_FixedPoint: iff at reduced depth; FixedLemmas!UniformIff8/16: full depth). Conformance: "
-         "(a) the quantised tables of the real normalisers (hook) for a lattice of geometries incl. extreme scales (kernel lengths up to 8192) x 7 filters x both kernel-size modes x 8/16-bit are checked window by window by TLC -- this covers "
+         "(a) the quantised tables of the real normalisers (hook) for a lattice of geometries incl. extreme scales (kernel lengths up to 8192) x 7 filters x both kernel-size modes x 8/16-bit are checked window by window by TLC (unity band, and the accumulator budget that the band argument presupposes: precision cap and coefficient mass, FixedLemmas!AccFits32/64) -- this covers "
          "every component value at once; non-negative kernels must give non-negative coefficients; (b) ~800 constant images (all listed 8-bit values, extremes of the wider types, alpha at max) through 3 algorithms x back-ends: per-plane (min,max) = (v,v), floats within 1 ulp.",
     note="", design="4/C10", technique=TECH + "; Apalache lemmas"),
  "C18": dict(
     text="MC_FixedPoint / FixedLemmas (MonotoneStep, RangeKept): with non-negative integer coefficients inside the unity band the accumulate/round/shift/clip pipeline is monotone in every sample and stays within [min,max] of the window; "
-         "C10's coefficient check shows the real tables of Box/Bilinear/Hamming/Gaussian are non-negative and inside the band. Conformance: ~1k executions with contents confined to sub-ranges touching 0 / max (negative for I32) for all types, "
+         "C10's coefficient check shows the real tables of Box/Bilinear/Hamming/Gaussian are non-negative and inside the band. Conformance: ~2k executions with contents confined to sub-ranges touching 0 / max (negative for I32), strong down-scales (windows of 16-100 taps) over plateaus and steps at the ends of the range on every back-end, for all types, "
          "algorithms and back-ends: TLC checks destination (min,max) inside source (min,max) per component plane, and dst(A) <= dst(B) for ordered pairs A <= B (floats: 1 ulp slack).",
     note="", design="4/C18", technique=TECH + "; Apalache lemmas"),
 }
